@@ -94,11 +94,107 @@ example : ∃ T p0, lutSet 8 1 5 10 [1, 2, 3, -4] 3 = .ok T ∧ lutRotate 8 (-7)
     (by decide) (by decide) (by decide) (by decide) (by decide) (-7) (by decide) (by decide)
   exact ⟨T, p0, h1, h3, by rw [h4]; decide⟩
 
-/- FULL STATEMENT (not proved): the same for every extension factor `ext ∈ {2,4,8,…}` with
-`N·ext = len·step`, reading coefficient 0 of polynomial 0 of `lutRotate n kk T.data`:
-`± enc(f[⌊u/step⌋ mod len]·scale)`, `u = (drift − kk) mod 2·N·ext`.  Missing: the interleaving lemma
-`interleave (lutRotate k L) = rotate k (interleave L)` (k_hi / k_lo split + `rotate_right`).  The
-extended case is tied exhaustively instead (`rotall`: every t, every length, ext ∈ {2,4,8}). -/
+/-- the interleaving lemma: `lookup_table_rotate(k)` on the `ext` polynomials of a table is multiplication by
+`Y^k` of the degree-`N·ext` polynomial `P(Y)` with `P[x·ext + i] = data[i][x]` -/
+theorem lut_rotate_interleave (n : Nat) (k : Int) (L : List (List Vec)) (he : 0 < L.length) (hn : 0 < n)
+    (hlen : ∀ p ∈ L, p.length = n) (hr : ∀ p ∈ L, InRange p)
+    (hd2 : 2 * ((n * L.length : Nat) : Int) < 2 ^ 62) (hk1 : -(2 * ((n * L.length : Nat) : Int)) ≤ k)
+    (hk2 : k + 2 * ((n * L.length : Nat) : Int) < 2 ^ 63) :
+    interleave n (lutRotate n k L) = rotate k (interleave n L) :=
+  lutRotate_interleave n k L he hn hlen hr hd2 hk1 hk2
+
+example : interleave 2 (lutRotate 2 3 [[[1], [2]], [[3], [4]]]) = rotate 3 [[1], [3], [2], [4]] := by decide
+
+set_option maxHeartbeats 400000 in
+/-- **lut_eval (extended tables, `extension_factor = ext > 1`, a power of two).**  Same statement as `lut_eval`
+over the extended domain `N·ext = len·step` (table length `len ≤ N`): `lookup_table_set` succeeds with
+`drift = step/2` and, after one further clear rotation by any `kk ∈ [-2·N·ext, 2·N·ext]`, coefficient 0 of
+polynomial 0 — what the extended blind rotation returns — is `± enc(f[⌊u/step⌋]·scale)`,
+`u = (drift − kk) mod 2·N·ext`, minus exactly when `u ≥ N·ext`. -/
+theorem lut_eval_ext (n ext b kLut k step : Nat) (f : List Int) (hpow : isPow2 ext = true) (hext : 1 < ext) (hn : 0 < n)
+    (hn2 : 2 * ((n * ext : Nat) : Int) < 2 ^ 62) (hb : 1 ≤ b) (hb2 : b ≤ 64) (hlen : 1 ≤ f.length) (hfn : f.length ≤ n)
+    (hdiv : n * ext = f.length * step)
+    (hbits : maxBitSize f + k % b < 64) (hl1 : 1 ≤ (k + b - 1) / b) (hl2 : (k + b - 1) / b ≤ (kLut + b - 1) / b)
+    (kk : Int) (hk1 : -(2 * ((n * ext : Nat) : Int)) ≤ kk) (hk2 : kk ≤ 2 * ((n * ext : Nat) : Int)) :
+    ∃ T p0, lutSet n ext b kLut f k = .ok T ∧ T.drift = step / 2 ∧ (lutRotate n kk T.data)[0]? = some p0 ∧
+      p0[0]? =
+        (let u := ((((step / 2 : Nat) : Int) - kk) % (2 * ((n * ext : Nat) : Int))).toNat
+         (f[(u % (n * ext)) / step]?).map fun fi =>
+           let v := enc b ((kLut + b - 1) / b) ((k + b - 1) / b) (w64 (fi * (if k % b ≠ 0 then 2 ^ (b - k % b) else 1)))
+           if u < n * ext then v else negV v) := by
+  have hset := lutSet_extN n ext b kLut k step f hpow hext hb hlen hfn hdiv hbits hl1 hl2
+  have hstep : 0 < step := by
+    rcases Nat.eq_zero_or_pos step with h | h
+    · subst h; have : 0 < n * ext := Nat.mul_pos hn (by omega); omega
+    · exact h
+  have hsd : step ≤ n * ext := by rw [hdiv]; exact Nat.le_mul_of_pos_left step (by omega)
+  generalize hsz : (kLut + b - 1) / b = size at *
+  generalize hlm : (k + b - 1) / b = limbs at *
+  generalize hsc : (if k % b ≠ 0 then (2:Int) ^ (b - k % b) else 1) = scale at *
+  set F := lutFullOf size limbs step scale f with hFdef
+  have hFlen : F.length = n * ext := by rw [lutFullOf_length, hdiv]
+  have hFr : InRange F := lutFullOf_inRange _ _ _ _ _
+  set D1 : List (List Vec) := (List.range ext).map fun i =>
+      (switchDown ext n ((List.range i).foldl (fun p _ => rotate (-1) p) F)).map (normVec b) with hD1
+  have hD1len : D1.length = ext := by simp [hD1]
+  have hD1n : ∀ p ∈ D1, p.length = n := by
+    intro p hp
+    simp only [hD1, List.mem_map, List.mem_range] at hp
+    obtain ⟨i, _, rfl⟩ := hp
+    rw [List.length_map, switchDown_length n ext (by omega) _ (by rw [iterRotate F hFr, rotate_length, hFlen])]
+  have hD1r : ∀ p ∈ D1, InRange p := by
+    intro p hp
+    simp only [hD1, List.mem_map, List.mem_range] at hp
+    obtain ⟨i, _, rfl⟩ := hp
+    intro v hv
+    obtain ⟨w, _, rfl⟩ := List.mem_map.1 hv
+    exact normVec_range b hb hb2 w
+  set F' := tableF b size limbs step scale f with hF'
+  have hF'len : F'.length = n * ext := by rw [tableF_length, hdiv]
+  have hF'r : InRange F' := tableF_inRange _ _ _ _ _ f hb hb2
+  have hI1 : interleave n D1 = F' := by
+    rw [hD1, interleave_split n ext (by omega) F hFr hFlen (normVec b), hFdef, lutFullOf_norm]
+  -- first rotation (inside `lookup_table_set`)
+  set D2 := lutRotate n (-((step / 2 : Nat) : Int)) D1 with hD2
+  have hb1' : 2 * ((n * D1.length : Nat) : Int) < 2 ^ 62 := by rw [hD1len]; exact hn2
+  have hI2 : interleave n D2 = rotate (-((step / 2 : Nat) : Int)) F' := by
+    rw [hD2, lutRotate_interleave n _ D1 (by omega) hn hD1n hD1r hb1' (by rw [hD1len]; omega) (by rw [hD1len]; omega), hI1]
+  have hD2len : D2.length = ext := by rw [hD2, lutRotate_length _ _ _ (by omega), hD1len]
+  have hD2n : ∀ p ∈ D2, p.length = n := by
+    intro p hp
+    obtain ⟨r, q, hq, rfl⟩ := lutRotate_mem _ _ _ _ hp
+    rw [rotate_length]; exact hD1n q hq
+  have hD2r : ∀ p ∈ D2, InRange p := by
+    intro p hp
+    obtain ⟨r, q, hq, rfl⟩ := lutRotate_mem _ _ _ _ hp
+    exact rotate_inRange _ _ (hD1r q hq)
+  -- second rotation
+  set D3 := lutRotate n kk D2 with hD3
+  have hb2' : 2 * ((n * D2.length : Nat) : Int) < 2 ^ 62 := by rw [hD2len]; exact hn2
+  have hI3 : interleave n D3 = rotate kk (rotate (-((step / 2 : Nat) : Int)) F') := by
+    rw [hD3, lutRotate_interleave n kk D2 (by omega) hn hD2n hD2r hb2' (by rw [hD2len]; exact hk1) (by rw [hD2len]; omega), hI2]
+  have hD3len : D3.length = ext := by rw [hD3, lutRotate_length _ _ _ (by omega), hD2len]
+  have h0 : 0 < D3.length := by omega
+  have hp0n : (D3[0]'h0).length = n := by
+    obtain ⟨r, q, hq, he⟩ := lutRotate_mem _ _ _ _ (List.getElem_mem h0)
+    rw [he, rotate_length]; exact hD2n q hq
+  refine ⟨_, D3[0]'h0, hset, rfl, List.getElem?_eq_getElem h0, ?_⟩
+  have hget := interleave_get n D3 0 0 hn h0
+  simp only [Nat.zero_mul, Nat.add_zero, List.getElem?_eq_getElem h0, Option.getD_some] at hget
+  rw [List.getElem?_eq_getElem (show 0 < (D3[0]'h0).length by omega)] at hget ⊢
+  simp only [Option.getD_some] at hget
+  rw [← hget, hI3, coeff0_rotate_rotate F' hF'r (n * ext) hF'len (Nat.mul_pos hn (by omega))]
+  have := sext_tableF b size limbs step scale f hstep hlen (((step / 2 : Nat) : Int) - kk)
+  rw [this]
+  simp only [← hdiv]
+
+
+/-- non-vacuity: N = 8, ext = 2 (domain 16), 4 entries (step 4, drift 2), `kk = -9`: u = 11, entry f[2] = 3 scaled by 8 -/
+example : ∃ T p0, lutSet 8 2 5 10 [1, 2, 3, -4] 7 = .ok T ∧ (lutRotate 8 (-9) T.data)[0]? = some p0 ∧
+    p0[0]? = some (enc 5 2 2 24) := by
+  obtain ⟨T, p0, h1, _, h3, h4⟩ := lut_eval_ext 8 2 5 10 7 4 [1, 2, 3, -4] (by decide) (by decide) (by decide) (by decide)
+    (by decide) (by decide) (by decide) (by decide) (by decide) (by decide) (by decide) (by decide) (-9) (by decide) (by decide)
+  exact ⟨T, p0, h1, h3, by rw [h4]; decide⟩
 
 /-- `lookup_table_rotate` is total on `i64`: far below `-2N·ext` and at the `i64` limits the model (which
 the exhaustive tie shows equal to the code) still rotates by `k mod 2N·ext` — the `k_pos` wrap is
